@@ -30,6 +30,7 @@ use super::peer_addr_to_ip_version_str;
 use super::request::{parse_request, RequestParseError};
 
 const REQUEST_BUFFER_SIZE: usize = 2048;
+/// Minimum response buffer size. See `response_buffer_size`
 const RESPONSE_BUFFER_SIZE: usize = 4096;
 
 const RESPONSE_HEADER_A: &[u8] = b"HTTP/1.1 200 OK\r\nContent-Length: ";
@@ -38,6 +39,32 @@ const RESPONSE_HEADER_C: &[u8] = b"\r\n\r\n";
 
 static RESPONSE_HEADER: Lazy<Vec<u8>> =
     Lazy::new(|| [RESPONSE_HEADER_A, RESPONSE_HEADER_B, RESPONSE_HEADER_C].concat());
+
+/// Calculate response buffer size
+///
+/// Make sure that the largest responses allowed by the configuration fit,
+/// since responses that don't fit can't be sent.
+fn response_buffer_size(config: &Config) -> usize {
+    // Upper bound for length of an integer formatted in base 10
+    const MAX_INT_LEN: usize = 20;
+
+    // Announce response: keys, three counters, two peer list length prefixes
+    // and the peers (all IPv6 in the worst case)
+    let max_announce_body_len = 128 + 5 * MAX_INT_LEN + 18 * config.protocol.max_peers;
+
+    // Scrape response: the number of torrents is limited by configuration
+    // and by how many info hashes fit in the request buffer
+    let max_scrape_torrents = config
+        .protocol
+        .max_scrape_torrents
+        .min(REQUEST_BUFFER_SIZE / ("info_hash=".len() + 20 + "&".len()));
+    let max_scrape_body_len = 16 + max_scrape_torrents * (3 + 20 + 48 + 2 * MAX_INT_LEN);
+
+    let max_body_len = max_announce_body_len.max(max_scrape_body_len);
+
+    // Header, body and final newline
+    RESPONSE_BUFFER_SIZE.max(RESPONSE_HEADER.len() + max_body_len + 2)
+}
 
 struct PendingScrapeResponse {
     pending_worker_responses: usize,
@@ -80,7 +107,7 @@ pub(super) async fn run_connection(
     let access_list_cache = create_access_list_cache(&access_list);
     let request_buffer = Box::new([0u8; REQUEST_BUFFER_SIZE]);
 
-    let mut response_buffer = Box::new([0; RESPONSE_BUFFER_SIZE]);
+    let mut response_buffer = vec![0; response_buffer_size(&config)].into_boxed_slice();
 
     response_buffer[..RESPONSE_HEADER.len()].copy_from_slice(&RESPONSE_HEADER);
 
@@ -146,7 +173,7 @@ struct Connection<S> {
     peer_port: u16,
     request_buffer: Box<[u8; REQUEST_BUFFER_SIZE]>,
     request_buffer_position: usize,
-    response_buffer: Box<[u8; RESPONSE_BUFFER_SIZE]>,
+    response_buffer: Box<[u8]>,
     stream: S,
     worker_index_string: String,
 }
